@@ -102,11 +102,13 @@ def make(D, P, domain="sync", widths=(4, 1)):
                  z3.Implies(z3.And(done == 1, number_is_n), c.nx(O["sample"]) == v),
                  clause="reading back sample n returns the n-th recorded sample")
 
-        c.cover("capture_complete", z3.And(O["complete"] == 1, have == 1))
+        deep = D + P + 5
+        reach = deep <= 24                     # BMC over the buffer array gets slow beyond that; deeper configurations use the Inv-satisfiability guard
+        c.cover("capture_complete", z3.And(O["complete"] == 1, have == 1), reach=reach)
         c.cover("trigger_during_capture", z3.And(busy == 1, trig, k == (1 if D > 1 else 0)))
-        c.cover("second_capture", z3.And(done == 1, trig))
-        c.cover("readback_nonzero", z3.And(done == 1, number_is_n, v != 0, c.nx(O["sample"]) == v))
-        c.cover_depth = D + P + 5
+        c.cover("second_capture", z3.And(done == 1, trig), reach=reach)
+        c.cover("readback_nonzero", z3.And(done == 1, number_is_n, v != 0, c.nx(O["sample"]) == v), reach=reach)
+        c.cover_depth = deep if reach else 8
     return contract
 
 
